@@ -291,7 +291,11 @@ type Req struct {
 	// RawQuery is appended to the URI ("?"+RawQuery). It must consist of plain name=value pairs of
 	// unreserved characters joined by '&' (no escapes), so that its decoding is not in question; the
 	// library itself extracts these arguments into ARGS_GET (before the ones listed in Get).
-	RawQuery    string `json:"raw_query,omitempty"`
+	RawQuery string `json:"raw_query,omitempty"`
+	// RawBody is sent as an application/x-www-form-urlencoded request body (plain name=value pairs of unreserved
+	// characters joined by '&'); the program must switch SecRequestBodyAccess On. The library parses it into ARGS_POST
+	// when the request-body phase is reached (after the ones listed in Post, which are added up front).
+	RawBody     string `json:"raw_body,omitempty"`
 	Get         []KV   `json:"get,omitempty"`
 	Post        []KV   `json:"post,omitempty"`
 	Headers     []KV   `json:"headers,omitempty"`
